@@ -1,0 +1,17 @@
+//go:build verif
+
+package engine
+
+import "codeberg.org/TauCeti/mangle-go/factstore"
+
+// VerifRoundHook, when set (before any evaluation starts, never changed while
+// one runs), is called at the start of every incremental round of the
+// semi-naive loop with the store, the delta store whose facts the delta rules
+// are about to read. Only built with the "verif" tag.
+var VerifRoundHook func(store factstore.ReadOnlyFactStore, delta factstore.ReadOnlyFactStore)
+
+func (e *engine) verifRoundStart() {
+	if VerifRoundHook != nil {
+		VerifRoundHook(e.store, e.deltaStore)
+	}
+}
